@@ -124,3 +124,10 @@ Print Assumptions C09_distinct_within_window.
 Theorem C09_window_bound_exact : forall x0 a, SeqWindow.seq_after x0 (a + N.to_nat 16777216) = SeqWindow.seq_after x0 a.
 Proof. exact SeqWindow.seq_repeat_at_window. Qed.
 Print Assumptions C09_window_bound_exact.
+
+(* T-gen tie: sendReqTo takes the counter, advances it, registers the transaction and only then writes - the order of
+   send_req in the model; a failed write cannot leave the counter behind *)
+From GoUpf Require LookupGen LookupShape.
+Theorem C09_send_order_source_shape : (LookupGen.remote_sess_conds, LookupGen.sendreq_body) = LookupShape.lookup_model_shape.
+Proof. exact LookupShape.lookup_shape_ok. Qed.
+Print Assumptions C09_send_order_source_shape.
